@@ -18,7 +18,9 @@ use std::time::Duration;
 
 pub const POSITIONS: &[&str] = &[
     "position startpos",
-    "position startpos moves e2e4 e7e5 g1f3",
+    // a move list with repetitions: the position after 1.e4 e5 occurs three times, so every search
+    // from here meets third occurrences (repetition draws) at ply 1 and deeper
+    "position startpos moves e2e4 e7e5 g1f3 g8f6 f3g1 f6g8 g1f3 g8f6 f3g1 f6g8",
     "position fen 8/5pk1/6p1/R7/5P2/6P1/r4K2/8 w - - 0 40",
     "position fen 8/8/8/4k3/8/4K3/4P3/8 w - - 0 1",
 ];
